@@ -331,6 +331,26 @@ func runProperty(eng *Engine, prop string, timeout time.Duration, dir string) *p
 	for _, r := range pr.results {
 		pr.solverSec += r.res.Seconds
 	}
+	// global invariants relied upon: the locations they read must be written by package initialisation only
+	usedInv := map[string]bool{}
+	for _, rep := range pr.reports {
+		if rep.exec != nil {
+			for n := range rep.exec.usedInv {
+				usedInv[n] = true
+			}
+		}
+	}
+	for _, inv := range eng.contracts.Invs {
+		if !usedInv[inv.Name] {
+			continue
+		}
+		o := &Obligation{Name: "invariant#" + inv.Name + ":stable", Func: "invariant " + inv.Name, Kind: "invariant", Text: "locations read by the invariant are written only by package initialisation: " + inv.Text, Pos: fmt.Sprintf("%s:%d", inv.File, inv.Line), PC: True, Goal: True}
+		res := SolveResult{Status: "unsat", Solver: "static-scan"}
+		if bad := eng.invariantUnstable(inv); len(bad) > 0 {
+			res = SolveResult{Status: "unstable", Output: strings.Join(bad, "\n")}
+		}
+		pr.results = append(pr.results, oblResult{o: o, res: res})
+	}
 	// vacuity: the normal return of every verified function must be reachable under its assumptions
 	for _, rep := range pr.reports {
 		if rep.exec == nil || rep.Err != "" {
